@@ -10,6 +10,19 @@ RULE = ("construction programs over the public API: (a) M-Core modules built wit
         "(variadic or not, with 0..2 extra arguments): the type spelled at the call site equals the model's (proved to be read back by LLVM as the callee's signature); non-trivial = distinct program")
 
 
+def facts(res, harness):
+    """regenerated from the source (go/ast): every (*ir.Block).NewX is the pure delegation to the free constructor NewX"""
+    from . import regen
+    r = regen.gen_facts(harness)
+    b = r["facts"].get("builders") or []
+    for row in b:
+        if not row["delegates"]:
+            res.violation("(*ir.Block).%s is not the pure delegation to the free constructor %s: %s" % (row["name"], row["name"], row["why"]),
+                          {"ops": [], "fact": row, "replay_hint": "cd /verif/harness && ./bin/harness facts | jq .builders"})
+    return {"block_builders": len(b), "block_builders_not_delegating": [row["name"] for row in b if not row["delegates"]],
+            "facts_regenerated_changed": r["facts_regenerated_changed"]}
+
+
 def gen(tier, rng, harness, driver):
     lines = []
     n = 150 if tier == "quick" else 8000
